@@ -421,7 +421,9 @@ def eval_view(c, toks):
     t.i()
     bad_shape = None
     bad_elem = None
-    for route in ("V", "E", "C", "CB", "O"):
+    for route in ("V", "E", "C", "CB", "O", "OC"):
+        if route == "OC" and t.peek() != "OC":
+            continue        # (no supplied column-major output for 0-dim / oversized results)
         t.expect(route)
         if route == "CB":
             n = t.i()
@@ -435,7 +437,7 @@ def eval_view(c, toks):
             continue
         a = t.array()
         if a is None:
-            if route == "O" and exp.ndim == 0:
+            if route in ("O", "OC") and exp.ndim == 0:
                 continue
             if route == "C":
                 continue
